@@ -15,8 +15,6 @@ use crate::util::{hex, monitored, ncpu, par_for, rng_for, short_loc, unhex, Ctx,
 use falcon_rust::verif_hooks as vh;
 use falcon_rust::verif_hooks::Event;
 
-static NO_PROGRESS: AtomicU64 = AtomicU64::new(0);
-
 pub fn strategies(n: usize) -> Vec<(Strategy, u32)> {
     let g = 2 * n as u64; // sampler calls per attempt
     vec![
@@ -42,7 +40,7 @@ pub fn strategies(n: usize) -> Vec<(Strategy, u32)> {
 pub fn check_sign<V: Fv>(k: &Key<V>, pk_h: &[i64], msg: &[u8], shape: &str, strat: &Strategy, fails: u32, vseed: u64, label: &str, rep: &mut Report) {
     // every no-progress verdict costs the randomness of 1000 honest attempts; after a few of
     // them the rest of the matrix is skipped (the verdict cannot change back)
-    if NO_PROGRESS.load(Ordering::SeqCst) >= 4 {
+    if crate::signer::sign_is_stuck() {
         rep.count("skipped_after_repeated_no_progress", 1);
         return;
     }
@@ -53,7 +51,6 @@ pub fn check_sign<V: Fv>(k: &Key<V>, pk_h: &[i64], msg: &[u8], shape: &str, stra
     let sig = match out.sig {
         Ok(s) => s,
         Err(p) if p.no_progress => {
-            NO_PROGRESS.fetch_add(1, Ordering::SeqCst);
             rep.violation("sign:no-progress", format!("{} sign consumed the randomness of 1000 honest attempts without returning (shape {}, strategy {}, {} norm rejects, {} compress failures)", V::NAME, shape, strat.name(), out.norm_rejects, out.compress_fails), replay());
             return;
         }
